@@ -5,8 +5,9 @@
  "properties": {"C03": "contract", "C19": "safety"},
  "mode": "harness",
  "replace_calls": {"emitvalue": "rec_emitvalue", "emitname": "rec_emitname", "emitclass": "rec_emitclass", "emitinst": "rec_emitinst", "emitjump": "rec_emitjump"},
- "unwind": 66, "cflags": ["-DOE_MAX=64"],
- "kind": "bounded", "bound": "functions with 0..2 parameters (scalar and aggregate), variadic or not, void/scalar/aggregate result, 2 blocks (start: 2 instructions; body: optional phi, no instruction)",
+ "unwind": 12, "unwindset": ["oe_same.0:66", "emitfunc.0:4"], "cflags": ["-DOE_MAX=64"],
+ "variants": {"v0": ["-DV_NP=0","-DV_VA=1","-DV_GL=1","-DV_RK=0","-DV_PH=0"], "s1": ["-DV_NP=1","-DV_VA=0","-DV_GL=0","-DV_RK=1","-DV_PH=1"], "a1v": ["-DV_NP=1","-DV_VA=1","-DV_GL=1","-DV_RK=2","-DV_PH=1"], "a2": ["-DV_NP=2","-DV_VA=1","-DV_GL=0","-DV_RK=2","-DV_PH=0"]}, "canary_variant": "a1v",
+ "kind": "bounded", "bound": "FOUR constant function shapes (one CBMC run each; a symbolic shape costs 17 s per shape): f(...) exported void; static int f(double) with a phi; exported struct f(double, ...) with a phi; static struct f(struct, long, ...); 2 blocks (start: 2 instructions, falls through; body: optional phi, no instruction, any terminator)",
  "timeout": 300, "replay": false,
  "expects": ["assertion_verif"],
  "assumes": ["stdout is the token recorder of out_rec.h; emitvalue/emitname/emitclass/emitinst/emitjump are one-event stand-ins with the contracts of QBE.emit.value / QBE.emit.inst / QBE.emit.jump (emit_stubs.h and this file)",
@@ -66,15 +67,21 @@ check(unsigned np, bool vararg, bool global, int rk, bool phi, int in_jk)
 	pv[0].kind = pv[1].kind = VALUE_TEMP; pv[0].id = 1; pv[1].id = 2;
 	ft.kind = TYPEFUNC;
 	ft.base = rk == 0 ? &typevoid : rk == 1 ? &typeint : &t_agg;
-	ft.u.func.params = np ? &pd[0] : 0;
-	ft.u.func.nparam = np;
-	ft.u.func.isvararg = vararg;
+	{
+		/* one whole-member assignment: CBMC does not propagate pointers written member-wise into a union */
+		__typeof__(ft.u.func) fu = {vararg, np ? &pd[0] : 0, np};
+		ft.u.func = fu;
+	}
 	fv.kind = VALUE_GLOBAL;
 	fd.value = &fv;
 	ia[0] = &i0; ia[1] = &i1;
 	b0.label.kind = b1.label.kind = VALUE_LABEL;
 	b0.insts.val = ia; b0.insts.len = sizeof ia; b0.insts.cap = sizeof ia;
-	b1.insts.val = 0; b1.insts.len = 0; b1.insts.cap = 0;
+#ifdef V_NULLBLK
+	b1.insts.val = 0; b1.insts.len = 0; b1.insts.cap = 0;        /* a block that never got an instruction: mkblock()'s (struct array){0} */
+#else
+	b1.insts.val = &ia[2]; b1.insts.len = 0; b1.insts.cap = 0;   /* empty, but with storage (see QBE.emit.func.emptyblock for val == NULL) */
+#endif
 	b0.phi.res.kind = VALUE_NONE;
 	b0.jump.kind = JUMP_NONE;            /* falls through */
 	b1.jump.kind = in_jk;
@@ -133,19 +140,11 @@ check(unsigned np, bool vararg, bool global, int rk, bool phi, int in_jk)
 void
 harness(void)
 {
-	IN(unsigned, in_np); IN(bool, in_vararg); IN(bool, in_global); IN(int, in_rk); IN(bool, in_phi); IN(int, in_jk);
-	unsigned np, va, gl, ph; int rk;
+	IN(int, in_jk);
 
-	__CPROVER_assume(in_jk >= JUMP_NONE && in_jk <= JUMP_HLT);
-	for (np = 0; np < 3; np++)
-		for (va = 0; va < 2; va++)
-			for (gl = 0; gl < 2; gl++)
-				for (rk = 0; rk < 3; rk++)
-					for (ph = 0; ph < 2; ph++)
-						if (in_np == np && in_vararg == va && in_global == gl && in_rk == rk && in_phi == ph) {
-							check(np, va, gl, rk, ph, in_jk);
+	__CPROVER_assume(in_jk > JUMP_NONE && in_jk <= JUMP_HLT);   /* an open last block: QBE.emitfunc.term */
+	check(V_NP, V_VA, V_GL, V_RK, V_PH, in_jk);
 #ifdef VERIF_CANARY
-							__CPROVER_assert(!(np == 2 && va && rk == 2), "CANARY");
+	__CPROVER_assert(in_jk != JUMP_HLT, "CANARY");
 #endif
-						}
 }
